@@ -153,7 +153,7 @@ func runNewConnInner(record []byte, keys []ech.Key) (o obsNewConn) {
 	}()
 	var opts []ech.Option
 	if keys != nil {
-		opts = append(opts, ech.WithKeys(keys))
+		opts = append(opts, keyOptions(keys)...)
 	}
 	c, err := ech.NewConn(context.Background(), sc, opts...)
 	sc.mu.Lock()
